@@ -1,0 +1,13 @@
+//go:build verif
+
+package token
+
+// VerifAfterLoad, when set, is called right after the token metadata has been loaded into the
+// contract object: a switch point for schedulers that interleave concurrent invocations.
+var VerifAfterLoad func()
+
+func verifAfterLoad() {
+	if VerifAfterLoad != nil {
+		VerifAfterLoad()
+	}
+}
